@@ -181,6 +181,17 @@ impl<'a> DataValue {
                     false
                 }
             }
+            //numeric comparison across integer and floating-point values
+            (Self::Int(n), DataOperator::EqualsFloat(n2)) => (*n as f64) == *n2,
+            (Self::Int(n), DataOperator::GreaterThanFloat(n2)) => (*n as f64) > *n2,
+            (Self::Int(n), DataOperator::GreaterThanOrEqualFloat(n2)) => (*n as f64) >= *n2,
+            (Self::Int(n), DataOperator::LessThanFloat(n2)) => (*n as f64) < *n2,
+            (Self::Int(n), DataOperator::LessThanOrEqualFloat(n2)) => (*n as f64) <= *n2,
+            (Self::Float(n), DataOperator::EqualsInt(n2)) => *n == (*n2 as f64),
+            (Self::Float(n), DataOperator::GreaterThan(n2)) => *n > (*n2 as f64),
+            (Self::Float(n), DataOperator::GreaterThanOrEqual(n2)) => *n >= (*n2 as f64),
+            (Self::Float(n), DataOperator::LessThan(n2)) => *n < (*n2 as f64),
+            (Self::Float(n), DataOperator::LessThanOrEqual(n2)) => *n <= (*n2 as f64),
             (Self::Float(n), DataOperator::EqualsFloat(n2)) => *n == *n2,
             (Self::Float(n), DataOperator::GreaterThanFloat(n2)) => *n > *n2,
             (Self::Float(n), DataOperator::GreaterThanOrEqualFloat(n2)) => *n >= *n2,
